@@ -93,6 +93,24 @@ P = {
          "§5 C20"),
 }
 
+# clauses added in session 3 (rounds 11 and 12), appended to the claim text
+S3 = {
+ "C01": " Session 3: a key of another constant family is bookkeeping (only a key without a constant family is reported); TransferX's 'a refusal faults' moved to C05.",
+ "C03": " Session 3: a transfer and a (re-)registration of an NNS name both store Admin = nil; decode-absent for the ballot list; the verify converse accepts an account left out where the two thresholds coincide.",
+ "C04": " Session 3: every normal return of a put has emitted PutSuccess; emitters stated per entry point; a write skipped because the stored value is known identical counts as done.",
+ "C05": " Session 3: an unpayable put faults: amount x keys established before the fee loop, or a refused balance.transferX faults (one of the two).",
+ "C07": " Session 3: update/remove rules over sets of sites (fast paths), emitters per entry point, the legacy listing collects every scanned candidate.",
+ "C09": " Session 3: every tick that returns normally has scanned the accounts (a way round that depends on a stored key nobody writes is not a way).",
+ "C10": " Session 3: updateBalance's step rules for every constant handed over (0: index entry kept); IsAvailable answers the constant 'taken' only where the liveness helper found the path alive.",
+ "C11": " Session 3: a registration (first or take-over, Register or RegisterTLD) stores Admin = nil.",
+ "C13": " Session 3: nil-side-use (a value just found nil is not used on that side; SSA positive control), submission-tracked (validUntilBlock and every id of a submission reach one tracker call), package-state (no package-level variable is written or handed out by address in a function body), found-flag (the flag choosing between two submissions is not left false inside the innermost succeeded lookup).",
+ "C14": " Session 3: Nodes scans the committed family only (and does not edit its key in place).",
+ "C17": " Session 3: decode-absent: an item some method deletes is decoded only where the read was found non-nil.",
+ "C18": " Session 3: the level rules of the helper that finds the governing token are decided here as well (a well-formed record below an expired intermediate level is filed, not refused).",
+ "C19": " Session 3: the vote protocol of all four voting methods (one shared ballot list); decode-absent.",
+ "C20": " Session 3: every container tick that returns normally has scanned the estimations; an estimation reader faults only on a malformed id, never on stored state.",
+}
+
 NA_PENDING = "check not yet registered in this revision of /verif (under construction); no claim is made"
 
 def main():
@@ -110,7 +128,7 @@ def main():
                 "evidence_file": f"evidence/{pid}.json",
                 "replay_cmd_template": "bin/nfsverif explain {path}",
                 "engine": "nfsverif",
-                "level_claimed": {"category": level, "text": text, "design_ref": ref},
+                "level_claimed": {"category": level, "text": text + S3.get(pid, ""), "design_ref": ref},
                 "level_note": TB,
                 "technique": tech,
             })
